@@ -1122,8 +1122,12 @@ impl Connection {
                 // The current `path` might have changed inside `handle_decode`,
                 // since the packet could have triggered a migration. Make sure
                 // the data received is accounted for the most recent path by accessing
-                // `path` after `handle_decode`.
-                self.path.total_recvd = self.path.total_recvd.saturating_add(data_len as u64);
+                // `path` after `handle_decode`. Data from any other address (e.g. a packet that was
+                // discarded, or a probe from a path we didn't migrate to) must not raise the
+                // anti-amplification budget of the current path's address.
+                if remote == self.path.remote {
+                    self.path.total_recvd = self.path.total_recvd.saturating_add(data_len as u64);
+                }
 
                 if let Some(data) = remaining {
                     self.stats.udp_rx.bytes += data.len() as u64;
